@@ -71,6 +71,9 @@ ANCHORS = [
     A("CctxParent", "component.py", "_render_impl", "parent_comp_ctx = component_context_cache[parent_id]", detail="parent_id"),
     A("CctxPut", "component.py", "_render_impl", "component_context_cache[render_id] = component_ctx", detail="render_id"),
     A("CctxDel", "component.py", "on_component_rendered", "del component_context_cache[render_id]", prefix=True, detail="render_id"),
+    A("PurgeCctx", "component.py", "_render_impl", "component_context_cache.pop(tree_id, None)", detail="tree_id"),
+    A("PurgeRend", "component.py", "_render_impl", "component_renderer_cache.pop(tree_id, None)", detail="tree_id"),
+    A("PurgeAttr", "component.py", "_render_impl", "child_component_attrs.pop(tree_id, None)", detail="tree_id"),
     A("RendPut", PC, "component_post_render", "component_renderer_cache[render_id] = (renderer, component_name)", detail="render_id"),
     A("RendPop", PC, "component_post_render", "curr_comp_renderer, curr_comp_name = component_renderer_cache.pop(curr_item.child_id)", detail="curr_item.child_id"),
     A("AttrPop", PC, "component_post_render", "curr_comp_attrs = child_component_attrs.pop(curr_item.child_id, None)", detail="curr_item.child_id"),
@@ -373,7 +376,7 @@ def render(name, page):
 
 T_PLAIN = render("pl", [comp(1)])
 T_PLAIN2 = render("pm", [comp(1)])
-T_PFAIL = render("pf", [comp(1, fail=True)])
+T_PFAIL = render("pf", [comp(1, [comp(2), comp(3, fail=True)])])
 T_NEST = render("ne", [comp(1, [comp(2), comp(3)])])
 T_INJ = render("in", [prov(1, [comp(2, inj="p")])])
 T_INJ2 = render("io", [prov(1, [comp(2, inj="p")])])
